@@ -473,3 +473,219 @@ def eval_scan(P):
             elif not (r[0] == 'ret' and r[1] == pos):
                 bad.setdefault('position', '%s: returns %s, the characters written for this format end at position %s' % (label, r[1] if r[0] == 'ret' else r[0], pos))
     return bad, unsup, ncase
+
+
+# ---------------------------------------------------------------------------------------------------------------------------
+# String show / look round trip, evaluated at the level of characters
+
+class RTMismatch(Exception):
+    pass
+
+
+def _tuple_items(e):
+    found = []
+
+    def rec(x):
+        if isinstance(x, tuple):
+            if len(x) == 3 and x[0] == 'compound' and isinstance(x[1], str) and x[1].startswith('var[') and isinstance(x[2], tuple) and x[2][0] == 'initlist':
+                found.append(x[2][1])
+                return
+            for y in x:
+                rec(y)
+    rec(e)
+    return found[0] if len(found) == 1 else None
+
+
+def eval_string_roundtrip(P):
+    """String's show function is evaluated (cint) on strings that contain every character below 128 — alone, doubled, next to a quote,
+    a backslash and an ordinary letter — with a sink that renders `print_to` calls (literal text, `%%`, `%c`, `%s`) into text and threads
+    the position; String's look function is then evaluated on that text with a source that hands out one character per `%c`.  Required:
+    look returns the string that was shown, consumes exactly the characters show wrote (so the next item of a sequence starts where
+    this one ended), and show's text starts and ends with a quote that no character of the string can be taken for.
+    -> (mismatch show, mismatch look, unsupported, cases)"""
+    showf, lookf = P.slot('String', 'Show', 'show'), P.slot('String', 'Show', 'look')
+    fshow, flook = P.fn(showf), P.fn(lookf)
+    POS0, OUT, INP, DST = 40, 2, 3, ('ep', 'dst', 0)
+    tests = [bytes([c]) for c in range(1, 128)] + [bytes([c, c]) for c in (7, 8, 9, 10, 11, 12, 13, 34, 39, 63, 92, 37)] + \
+            [b'a' + bytes([c]) + b'b' for c in (34, 92, 10, 63, 37, 39)] + [bytes([c]) + t_ for c in (1, 2, 14, 16, 27, 31, 127) for t_ in (b'a', b'1', b'f0', b'x41')] + \
+            [b'\\"', b'"\\', b'\\n', b'\\x41', b'\\101', b'%c', b'%%', b'', b'plain text', b'tab\there "quoted" \\ done?\n']
+    bads, badl, unsup, ncase = None, None, None, 0
+    for s in tests:
+        label = 'the string %r' % s.decode('latin-1')
+        # ---- show
+        out = []
+        state = {'pos': POS0}
+        atoms = {('global', 'NULL'): 0, ('global', 'Terminal'): 7777, ('elem', 'self', 0, 'val'): ('ep', 'buf', 0)}
+        for i, c in enumerate(s + b'\0'):
+            atoms[('elem', 'buf', i, None)] = c
+
+        def argval(x, it):
+            v = it.ev(x)
+            if isinstance(v, tuple) and v[0] == 'stack':
+                return v[2][0]
+            return v
+
+        def call_show(nm, e, it):
+            if nm == 'print_to_with':
+                if it.ev(e[2][0]) != OUT:
+                    raise RTMismatch('writes to something that is not the output')
+                if it.ev(e[2][1]) != state['pos']:
+                    raise RTMismatch('a write is given position %s, the previous one ended at %s' % (it.ev(e[2][1]), state['pos']))
+                f = it.ev(e[2][2])
+                if not (isinstance(f, tuple) and f[0] == 'str'):
+                    raise cint.NoEval('print_to with a format that is not a literal')
+                items = [x for x in (_tuple_items(e[2][3]) or ()) if ir.top_nocast(x) != ('global', 'Terminal')]
+                k, i, text = 0, 0, []
+                fm = f[1]
+                while i < len(fm):
+                    if fm[i] != '%':
+                        text.append(ord(fm[i]) & 0xff)
+                        i += 1
+                        continue
+                    if fm[i + 1:i + 2] == '%':
+                        text.append(37)
+                        i += 2
+                        continue
+                    if fm[i + 1:i + 2] == 'c':
+                        if k >= len(items):
+                            raise RTMismatch('%c without an argument')
+                        text.append(argval(items[k], it) & 0xff)
+                        k += 1
+                        i += 2
+                        continue
+                    import re as _re
+                    m_ = _re.match(r'%([-+ 0#]*)(\d*)(?:\.(\d+))?(l?)([diuxXo])', fm[i:])
+                    if m_:
+                        if k >= len(items):
+                            raise RTMismatch('%s without an argument' % m_.group(0))
+                        v_ = argval(items[k], it)
+                        if not isinstance(v_, int):
+                            raise cint.NoEval('a numeric conversion of %r' % (v_,))
+                        if m_.group(5) in 'xXou' and v_ < 0:
+                            v_ += 1 << 64
+                        spec_ = '%' + m_.group(1) + m_.group(2) + ('.' + m_.group(3) if m_.group(3) else '') + {'i': 'd', 'u': 'd'}.get(m_.group(5), m_.group(5))
+                        text.extend((spec_ % v_).encode('latin-1'))
+                        k += 1
+                        i += len(m_.group(0))
+                        continue
+                    raise cint.NoEval('conversion %s in a show format' % fm[i:i + 2])
+                out.extend(text)
+                state['pos'] += len(text)
+                return state['pos']
+            raise cint.NoEval('call %s' % nm)
+        it = cint.CInt(P, fshow, atoms=atoms, call=call_show, recurse=True, strict=True, max_steps=4000)
+        it.atoms = atoms
+        try:
+            r = it.run([('ep', 'self', 0), OUT, POS0])
+        except RTMismatch as x:
+            bads = bads or '%s: %s' % (label, x)
+            continue
+        ncase += 1
+        if r[0] == 'stuck':
+            unsup = unsup or 'show of %s: %s' % (label, r[1])
+            continue
+        if r[0] != 'ret' or r[1] != state['pos']:
+            bads = bads or '%s: show returns %s, its last write ended at %s' % (label, r[1] if r[0] == 'ret' else r[0], state['pos'])
+            continue
+        text = bytes(out)
+        if len(text) < 2 or text[:1] != b'"' or text[-1:] != b'"':
+            bads = bads or '%s: shown as %r, which does not start and end with a quotation mark' % (label, text.decode('latin-1'))
+            continue
+        # ---- look, on the text followed by something else
+        src = text + b',x'
+        dst = []
+        st = {'reads': 0}
+        atoms2 = {('global', 'NULL'): 0, ('global', 'Terminal'): 7777}
+
+        def call_look(nm, e, it):
+            if nm == 'scan_from_with':
+                if it.ev(e[2][0]) != INP:
+                    raise RTMismatch('reads from something that is not the input')
+                f = it.ev(e[2][2])
+                if not (isinstance(f, tuple) and f[0] == 'str' and f[1] in ('%c', '%x', '%X', '%d', '%i', '%u', '%o', '%2x', '%3o', '%lx', '%li')):
+                    raise cint.NoEval('scan_from with a format the source does not render')
+                p = it.ev(e[2][1]) - POS0
+                if not 0 <= p < len(src):
+                    raise RTMismatch('reads at offset %d of a text of %d characters' % (p, len(text)))
+                items = [x for x in (_tuple_items(e[2][3]) or ()) if ir.top_nocast(x) != ('global', 'Terminal')]
+                if len(items) != 1 or ir.top_nocast(items[0])[0] != 'local':
+                    raise cint.NoEval('scan_from target')
+                st['reads'] += 1
+                if st['reads'] > 4 * len(src) + 8:
+                    raise RTMismatch('keeps reading')
+                if f[1] == '%c':
+                    it.locals[ir.top_nocast(items[0])[2]] = ('stack', 'Int', (src[p],))
+                    return POS0 + p + 1
+                # a numeric conversion, as scanf reads it: white space skipped, then as many digits of the base as follow (up to the width)
+                import re as _re
+                conv = f[1][-1]
+                width = int(_re.sub(r'\D', '', f[1]) or 0)
+                q = p
+                while q < len(src) and src[q:q + 1] in (b' ', b'\t', b'\n', b'\r', b'\v', b'\f'):
+                    q += 1
+                digits = {'x': b'0123456789abcdefABCDEF', 'X': b'0123456789abcdefABCDEF', 'o': b'01234567'}.get(conv, b'0123456789')
+                q0 = q
+                if conv in 'di' and src[q:q + 1] in (b'-', b'+'):
+                    q += 1
+                while q < len(src) and src[q] in digits and (not width or q - q0 < width):
+                    q += 1
+                tok = src[q0:q]
+                if not tok or tok in (b'-', b'+'):
+                    raise RTMismatch('a numeric read finds no digits at offset %d' % p)
+                it.locals[ir.top_nocast(items[0])[2]] = ('stack', 'Int', (int(tok, 16 if conv in 'xX' else (8 if conv == 'o' else 10)),))
+                return POS0 + q
+            if nm == 'c_int':
+                v = it.ev(e[2][0])
+                if isinstance(v, tuple) and v[0] == 'stack':
+                    return v[2][0]
+                raise cint.NoEval('c_int of %r' % (v,))
+            if nm == 'String_Clear' or (nm == 'clear' and it.ev(e[2][0]) == DST):
+                del dst[:]
+                return 0
+            if nm in ('String_Concat', 'append', 'concat', 'String_Append'):
+                if it.ev(e[2][0]) != DST:
+                    raise RTMismatch('appends to something that is not the String being read')
+                v = it.ev(e[2][1])
+                if isinstance(v, tuple) and v[0] == 'stack' and v[1] == 'String':
+                    v = v[2][0]
+                v = cint._strp(v)
+                if not (isinstance(v, tuple) and v[0] == 'ep'):
+                    raise cint.NoEval('appended value %r' % (v,))
+                for j in range(64):
+                    key = ('elem', v[1], v[2] + j, None)
+                    if isinstance(v[1], tuple) and v[1][0] == 'strlit':
+                        bs = v[1][1].encode('latin-1', 'replace')
+                        c = bs[v[2] + j] if v[2] + j < len(bs) else 0
+                    elif key in it.atoms:
+                        c = it.atoms[key]
+                    else:
+                        raise RTMismatch('appends a buffer that has no terminator')
+                    if c == 0:
+                        break
+                    dst.append(c & 0xff)
+                return 0
+            if nm == 'strchr':
+                a, c = cint._strp(it.ev(e[2][0])), it.ev(e[2][1])
+                if isinstance(a, tuple) and a[0] == 'ep' and isinstance(a[1], tuple) and a[1][0] == 'strlit':
+                    bs = a[1][1].encode('latin-1', 'replace') + b'\\0'[:0] + bytes([0])
+                    j = bs.find(bytes([c & 0xff]), a[2])
+                    return ('ep', a[1], j) if j >= 0 else 0
+                raise cint.NoEval('strchr on %r' % (a,))
+            raise cint.NoEval('call %s' % nm)
+        it2 = cint.CInt(P, flook, atoms=atoms2, call=call_look, recurse=True, strict=True, max_steps=20000)
+        it2.atoms = atoms2
+        try:
+            r2 = it2.run([DST, INP, POS0])
+        except RTMismatch as x:
+            badl = badl or '%s, shown as %r: look %s' % (label, text.decode('latin-1'), x)
+            continue
+        if r2[0] == 'stuck':
+            unsup = unsup or 'look of %s: %s' % (label, r2[1])
+            continue
+        if r2[0] != 'ret':
+            badl = badl or '%s, shown as %r: look raises %s' % (label, text.decode('latin-1'), r2[1][1] if isinstance(r2[1], tuple) else r2[1])
+        elif bytes(dst) != s:
+            badl = badl or '%s, shown as %r: look reads it back as %r' % (label, text.decode('latin-1'), bytes(dst).decode('latin-1'))
+        elif r2[1] != POS0 + len(text):
+            badl = badl or '%s, shown as %r (%d characters): look returns position +%s' % (label, text.decode('latin-1'), len(text), r2[1] - POS0 if isinstance(r2[1], int) else r2[1])
+    return bads, badl, unsup, ncase
